@@ -115,6 +115,19 @@ func C15(c *Ctx) {
 	runM = runM0
 	c.R.Check(okPair, "C15-R1", "RunMachine: state applied iff reported", c.P.Pos(runM.Pos()), "one assignment of Machine.State and one record of Changed.State, with no exit in between", "a machine can move without the move being reported (or be reported without moving): "+why)
 	// SetMachine: state recorded and applied
+	// (setScope: SetMachine and the helpers of package sio it hands parts of its work to; a construct in a helper is
+	// judged under the facts of the way that leads to it, see framePaths)
+	setScope := []*ssa.Function{setM}
+	for _, f := range pkgClosure(setM) {
+		if f != setM && prog.PkgOf(f) == "sio" {
+			setScope = append(setScope, f)
+		}
+	}
+	inSetScope := func(visit func(in ssa.Instruction)) {
+		for _, f := range setScope {
+			ssau.Instrs(f, visit)
+		}
+	}
 	var recState, recSrc bool
 	var applyExisting, applyNew bool
 	ssau.Instrs(setM, func(in ssa.Instruction) {
@@ -178,14 +191,14 @@ func C15(c *Ctx) {
 	// gave one)
 	{
 		okRe, whyRe := false, "where SetMachine finds a pending deletion for a machine it has just created it records no state: the store keeps the deleted machine's state under the id, and a crew rebuilt from it resumes the old machine"
-		ssau.Instrs(setM, func(in ssa.Instruction) {
+		inSetScope(func(in ssa.Instruction) {
 			st, ok := in.(*ssa.Store)
 			if !ok || !ssau.IsField(st.Addr, prog.Abs("sio"), "Changed", "State") {
 				return
 			}
 			// the value: the (new) machine's own state
 			isMachineState := false
-			for _, d := range deepDefs(st.Val, []*ssa.Function{setM}) {
+			for _, d := range deepDefs(st.Val, setScope) {
 				if _, is := ssau.LoadOfField(d, prog.Abs("crew"), "Machine", "State"); is {
 					isMachineState = true
 				}
@@ -194,9 +207,11 @@ func C15(c *Ctx) {
 				return
 			}
 			// under "Deleted is set" on the pending record
-			for _, f := range flow.FactsAt(st.Block()) {
-				if ld, isLd := f.Cond.(*ssa.UnOp); isLd && f.True && ssau.IsField(ld.X, prog.Abs("sio"), "Changed", "Deleted") {
-					okRe = true
+			for _, p := range framePaths(st, setM, setScope) {
+				for _, f := range p.facts {
+					if ld, isLd := f.Cond.(*ssa.UnOp); isLd && f.True && ssau.IsField(ld.X, prog.Abs("sio"), "Changed", "Deleted") {
+						okRe = true
+					}
 				}
 			}
 		})
@@ -205,7 +220,7 @@ func C15(c *Ctx) {
 	// a machine that exists again is not reported as deleted: SetMachine withdraws a pending deletion
 	{
 		okUndel := false
-		ssau.Instrs(setM, func(in ssa.Instruction) {
+		inSetScope(func(in ssa.Instruction) {
 			st, ok := in.(*ssa.Store)
 			if !ok || !ssau.IsField(st.Addr, prog.Abs("sio"), "Changed", "Deleted") {
 				return
@@ -214,36 +229,45 @@ func C15(c *Ctx) {
 			if !isC || cst.Value == nil || cst.Value.String() != "false" {
 				return
 			}
-			// on every path through SetMachine on which a change record for the machine is pending
-			pending := false
-			for _, f := range flow.FactsAt(st.Block()) {
-				if ex, isEx := f.Cond.(*ssa.Extract); isEx && ex.Index == 1 && f.True {
+			isPendingTest := func(f flow.Fact) bool {
+				cond := f.Cond
+				if u, isU := cond.(*ssa.UnOp); isU && u.Op == token.NOT {
+					cond = u.X // (the expanded fact on u.X carries the polarity)
+				}
+				if ex, isEx := cond.(*ssa.Extract); isEx && ex.Index == 1 {
 					if lk, isLk := ex.Tuple.(*ssa.Lookup); isLk {
 						if _, is := ssau.LoadOfField(lk.X, prog.Abs("sio"), "Crew", "changed"); is {
-							pending = true
+							return true
 						}
 					}
 				}
+				return false
 			}
-			_, _, base, _ := ssau.FieldOf(st.Addr)
-			if cl, isCall := base.(*ssa.Call); isCall && cl.Common().StaticCallee() == change {
-				pending = true // c.change(mid).Deleted = false
-			}
-			if pending && !flow.InCycle(st.Block()) {
-				// not behind any other condition
-				extra := 0
-				for _, f := range flow.FactsAt(st.Block()) {
-					if ex, isEx := f.Cond.(*ssa.Extract); isEx && ex.Index == 1 {
-						if lk, isLk := ex.Tuple.(*ssa.Lookup); isLk {
-							if _, is := ssau.LoadOfField(lk.X, prog.Abs("sio"), "Crew", "changed"); is {
-								continue
-							}
-						}
+			// on every path through SetMachine on which a change record for the machine is pending (the store may sit
+			// in a helper: then the facts are those of the way from SetMachine to it)
+			for _, p := range framePaths(st, setM, setScope) {
+				pending := false
+				for _, f := range p.facts {
+					if _, isEx := f.Cond.(*ssa.Extract); isEx && isPendingTest(f) && f.True {
+						pending = true
 					}
-					extra++
 				}
-				if extra == 0 {
-					okUndel = true
+				_, _, base, _ := ssau.FieldOf(st.Addr)
+				if cl, isCall := base.(*ssa.Call); isCall && cl.Common().StaticCallee() == change {
+					pending = true // c.change(mid).Deleted = false
+				}
+				if pending && !p.inCycle {
+					// not behind any other condition
+					extra := 0
+					for _, f := range p.facts {
+						if isPendingTest(f) {
+							continue
+						}
+						extra++
+					}
+					if extra == 0 {
+						okUndel = true
+					}
 				}
 			}
 		})
@@ -277,8 +301,8 @@ func C15(c *Ctx) {
 	c.R.Check(applyNew && applyExisting, "C15-R1", "SetMachine: given state is applied to new and to existing machines", c.P.Pos(setM.Pos()), "Machine.State assigned for a new machine and for an existing one", fmt.Sprintf("a reported state is not applied (new machine=%v, existing machine=%v)", applyNew, applyExisting))
 	// the spec source is applied (m.SpecSource / m.Specter set from ResolveSpecSource) when given
 	specApplied := false
-	ssau.Instrs(setM, func(in ssa.Instruction) {
-		if st, ok := in.(*ssa.Store); ok && ssau.IsField(st.Addr, prog.Abs("crew"), "Machine", "Specter") {
+	inSetScope(func(in ssa.Instruction) {
+		if st, ok := in.(*ssa.Store); ok && ssau.IsField(st.Addr, prog.Abs("crew"), "Machine", "Specter") && len(framePaths(st, setM, setScope)) > 0 {
 			specApplied = true
 		}
 	})
@@ -620,6 +644,23 @@ func c15Writers(c *Ctx, change *ssa.Function) {
 						covered = true
 					}
 				})
+				if !covered {
+					// the assignment sits in a helper whose callers are all known, and each of them records the
+					// change on every way on from the helper's return (under what the helper knew at the assignment
+					// and what it returned)
+					isRecord := func(in2 ssa.Instruction) bool {
+						r, ok := in2.(*ssa.Store)
+						if !ok || !ssau.IsField(r.Addr, prog.Abs("sio"), "Changed", rf) {
+							return false
+						}
+						_, _, rb, _ := ssau.FieldOf(r.Addr)
+						cl, isC := rb.(*ssa.Call)
+						return isC && cl.Common().StaticCallee() == change
+					}
+					if f.Parent() == nil && !flow.InCycle(st.Block()) {
+						covered = coveredAfter(f, st.Block(), flow.Index(st), flow.StableFacts(flow.FactsAt(st.Block())), isRecord, all, 0)
+					}
+				}
 				c.R.Check(covered, "C15-R3", key, c.pos(in), "covered by a record of Changed."+rf+" in the same function", "the "+mf+" of "+why+" is assigned without the assignment being recorded in the change cache on that path: the store keeps the old "+mf)
 			}
 		})
